@@ -1567,6 +1567,10 @@ class CodeGenerator(NodeVisitor):
             self.write(")")
 
     def visit_Output(self, node: nodes.Output, frame: Frame) -> None:
+        # an empty print statement writes nothing
+        if not node.nodes:
+            return
+
         # If an extends is active, don't render outside a block.
         if frame.require_output_check:
             # A top-level extends is known to exist at compile time.
